@@ -229,12 +229,30 @@ def twin_of(rng, c):
     return t
 
 
-def dev_mean(a, b, sd):
-    """max |a-b| / (|a| + sd + 1e-3 max|a|)"""
+def deriv_floor(c, coeff_mag):
+    """Intrinsic rounding noise of the i-th Taylor coefficient estimated from data at spacing h: eps * |u^(j)| / h^(i-j).
+    coeff_mag: max |u^(j)| per coefficient j (length q+1). Returns one floor per coefficient (fixed grids only)."""
+    if c.get("routine", "fixed_grid") != "fixed_grid":
+        return np.zeros(len(coeff_mag))
+    g = [float(x) for x in c["grid"]]
+    h = min(b - a for a, b in zip(g[:-1], g[1:]))
+    out = []
+    for i in range(len(coeff_mag)):
+        out.append(200 * 2.3e-16 * max(max(coeff_mag[j], 1.0) / h ** (i - j) for j in range(i + 1)))
+    return np.array(out)
+
+
+def base_of(q, b):
+    """tight tolerance b up to q = 3; conditioning grows by more than an order of magnitude per derivative"""
+    return b * {4: 1e1, 5: 1e3, 6: 1e5}.get(q, 1.0 if q <= 3 else 1e5)
+
+
+def dev_mean(a, b, sd, floor=0.0):
+    """max (|a-b| - floor)_+ / (|a| + sd + 1e-3 max|a|)"""
     a, b = np.asarray(a, dtype=float), np.asarray(b, dtype=float)
     if a.shape != b.shape or not (np.all(np.isfinite(a)) and np.all(np.isfinite(b))):
         return float("inf")
-    return float(np.max(np.abs(a - b) / (np.abs(a) + sd + 1e-3 * max(1.0, float(np.abs(a).max())))))
+    return float(np.max(np.maximum(np.abs(a - b) - floor, 0.0) / (np.abs(a) + sd + 1e-3 * max(1.0, float(np.abs(a).max())))))
 
 
 def dev_cov(Pa, Pb, sd):
@@ -348,9 +366,11 @@ def pytree_check(ck, n):
                 ck.report(sig, f"{describe(c)}: non-finite u.std in the flat problem only", rep)
             continue
         twin_ok = rt is not None and "error" not in rt and rt["flat"]["num_steps"] == fl["num_steps"]
+        fl_mean = np.asarray(fl["mean"], dtype=float)
+        floor = deriv_floor(c, np.abs(fl_mean).max(axis=(1, 2)))[:, None, None] if np.all(np.isfinite(fl_mean)) else 0.0
         for what in ("mean", "std", "output_scale", "t"):
             a, b = fl[what], tr[what]
-            metric = (lambda x, y: dev_mean(x, y, sdev)) if what == "mean" else dev_scale if what == "output_scale" else rel_diff  # noqa: E731
+            metric = (lambda x, y: dev_mean(x, y, sdev, floor)) if what == "mean" else dev_scale if what == "output_scale" else rel_diff  # noqa: E731
             w = metric(a, b)
             noise = 0.0
             if c["routine"] == "adaptive":
@@ -358,7 +378,7 @@ def pytree_check(ck, n):
                 if what == "mean":
                     note_noise(ck, "pytree", noise)
             track(f"pytree {c['routine']} {what}", w)
-            if not w <= allowance(c, 1e-12, noise):
+            if not w <= allowance(c, base_of(c["q"], 1e-12 if what != "std" else 1e-10), noise):
                 where = ""
                 a_, b_ = np.asarray(a, dtype=float), np.asarray(b, dtype=float)
                 if a_.shape == b_.shape:
@@ -419,6 +439,8 @@ def compare_dense_layout(ck, c, sig, rep, ra, rb, rt, what_a, what_b, base_m, ba
         ma, Pa, sd = ma[:, idx], Pa[:, idx][:, :, idx], sd[:, idx]
         if scale_perm is not None and sa.ndim == 2 and sa.shape[1] == len(scale_perm):
             sa = sa[:, scale_perm]
+    d_ = c["d"]
+    floor = np.repeat(deriv_floor(c, np.abs(ma).reshape(ma.shape[0], c["q"] + 1, d_).max(axis=(0, 2))), d_)[None, :]
     nm = nP = ns = 0.0
     if c["routine"] == "adaptive":
         ok = rt is not None and "error" not in rt and rt["num_steps"] == ra["num_steps"]
@@ -432,10 +454,11 @@ def compare_dense_layout(ck, c, sig, rep, ra, rb, rt, what_a, what_b, base_m, ba
         else:
             nm = nP = ns = float("inf")      # the twin takes other steps: the run sits on an acceptance boundary
         note_noise(ck, label, max(nm, nP))
-    wm, wP, ws = dev_mean(ma, mb, sd), dev_cov(Pa, Pb, sd), dev_scale(sa, sb)
+    wm, wP, ws = dev_mean(ma, mb, sd, floor), dev_cov(Pa, Pb, sd), dev_scale(sa, sb)
     track(f"{label} {c['routine']} mean", wm)
     track(f"{label} {c['routine']} cov", wP)
     track(f"{label} {c['routine']} scale", ws)
+    base_m, base_P = base_of(c["q"], base_m), base_of(c["q"], base_P)
     if not wm <= allowance(c, base_m, nm):
         t, i = np.unravel_index(np.argmax(np.abs(ma - mb) / (np.abs(ma) + sd)), ma.shape)
         ck.report(sig, f"{describe(c)}: mean at t[{t}] entry {i}: {ma[t, i]!r} ({what_a}) vs {mb[t, i]!r} ({what_b}); relative {wm:.3g}, twin noise {nm:.3g}", rep)
@@ -480,7 +503,7 @@ def permutation_check(ck, n):
         idx = np.array([m * d + p[i] for m in range(n1) for i in range(d)])
         cc = dict(c)
         compare_dense_layout(ck, cc, f"C15.permutation.{c['kind']}", {"case": jc, "permutation": p}, ra, rb, rt,
-                             f"solution permuted by {p}", "permuted problem", 1e-10 if c["q"] <= 3 else 1e-8, 1e-10 if c["q"] <= 3 else 1e-8,
+                             f"solution permuted by {p}", "permuted problem", 1e-10, 1e-10,
                              "permutation", idx=idx,
                              scale_perm=(p if c["kind"] == "blockdiag" else None))
 
@@ -591,6 +614,8 @@ def vmap_check(ck, n):
             sdev = np.asarray(s["std"], dtype=float)
             if c["kind"] == "iso":
                 sdev = sdev[..., None]
+            s_mean = np.asarray(s["mean"], dtype=float)
+            floor = deriv_floor(c, np.abs(s_mean).max(axis=(0, 2)))[None, :, None] if np.all(np.isfinite(s_mean)) else 0.0
             for what in ("mean", "std", "output_scale"):
                 if bad:
                     break
@@ -602,13 +627,13 @@ def vmap_check(ck, n):
                 if not np.all(np.isfinite(a)):
                     bad = f"u.{what} contains NaN/inf in the single solve only"
                     continue
-                metric = (lambda x, y: dev_mean(x, y, sdev)) if what == "mean" else dev_scale if what == "output_scale" else rel_diff  # noqa: E731
+                metric = (lambda x, y: dev_mean(x, y, sdev, floor)) if what == "mean" else dev_scale if what == "output_scale" else rel_diff  # noqa: E731
                 w = metric(a, b)
                 noise = metric(a, np.asarray(tw[what], dtype=float)) if tw is not None else float("inf")
                 if what == "mean":
                     note_noise(ck, "vmap", noise)
                 track(f"vmap {c['routine']} {what}", w)
-                base = 1e-10 if what == "mean" else 1e-8
+                base = base_of(c["q"], 1e-10 if what == "mean" else 1e-8)
                 if not w <= (base + KTWIN * noise if c["routine"] == "fixed_grid" else allowance(c, base, noise)):
                     idx = np.unravel_index(np.nanargmax(np.abs(a - b)), a.shape)
                     bad = f"u.{what} differs (relative {w:.3g}, twin noise {noise:.3g}) at {tuple(int(x) for x in idx)}: single {a[idx]!r} vs vmap {b[idx]!r}"
@@ -656,9 +681,9 @@ def main():
               "flatten/unflatten; fixed grid and adaptive, three factorisations, TS0/TS1, three strategies, three calibrations: u.mean/u.std/"
               "output_scale/num_steps equal (1e-12 on fixed grids), structure = caller's (isotropic u.std: one scalar per coefficient, as documented), "
               "leading axis = len(grid)/len(save_at); (ii) permutation of 2..4 components incl. per-dimension base scales: solution, covariance and "
-              "per-dimension scales permuted (1e-10; 1e-8 for q >= 4); (iii) jit vs jax.disable_jit() (1e-12 of |mean|+sd, 1e-9 of sd_i sd_j; identical num_steps); "
+              "per-dimension scales permuted (1e-10); (iii) jit vs jax.disable_jit() (1e-12 of |mean|+sd, 1e-9 of sd_i sd_j; identical num_steps); "
               "(iv) jax.vmap over initial values and a stiffness parameter vs one at a time (means 1e-10 of |mean|+sd, std/scales 1e-8, each + 50x the deviation of a rounding-size-perturbed twin; NaN check, identical num_steps); adaptive batches "
-              "whose step counts differ by >= 5x are the non-trivial ones. Adaptive comparisons: identical num_steps, values within 1e-7 (exact initial condition; 1e-4 otherwise) + 50x the "
+              "whose step counts differ by >= 5x are the non-trivial ones. All tight tolerances are for q <= 3 (x10, x1e3, x1e5 for q = 4, 5, 6) and carry the rounding floor eps |u^(j)| / h^(i-j) of the i-th Taylor coefficient on a grid of spacing h. Adaptive comparisons: identical num_steps, values within 1e-7 (exact initial condition; 1e-4 otherwise) + 50x the "
               "deviation of a rounding-size-perturbed twin run (conditioning of the adaptive solve); non-trivial: all others; distinct by full input",
               assumptions=lib.TRUSTED_BASE + ["C15 proof part is PARTIAL: jit and vmap equivalence are runtime properties of JAX/XLA that no Gallina model exhibits; "
                                                "they are covered by the correspondence harness only"])
